@@ -171,8 +171,58 @@ def analyse(F, cls, f, ctx, full=True):
         tf, wf = notes.get("functor TIME", []), notes.get("functor WP", [])
         integ = notes.get("integral", [])
 
+        def loop_event(L, cname):
+            """an element loop that accumulates into cname, as the whole-array event it amounts to (or None)"""
+            es = [e for e in L.effects if e.target == cname]
+            ue = upper_excl(L)
+            if len(es) != 1 or ue is None or es[0].op != "+=" or len(es[0].key) != 1:
+                return None
+            e, v = es[0], L.var
+            c_ = sp.expand(es[0].key[0] - v)
+            if v in c_.free_symbols:
+                return None
+            terms = []
+            if isinstance(e.value, Vec):
+                own = [a for a in e.value.t if base_of(a[0]) == cname and len(a) == 2 and sym.is_zero(sp.sympify(a[1]) - e.key[0]) and sym.is_zero(e.value.t[a] - 1)]
+                if len(own) != 1:
+                    return None
+                for a, co in e.value.t.items():
+                    if a is own[0] or a == own[0]:
+                        continue
+                    if len(a) != 2 or v not in sp.sympify(a[1]).free_symbols or not sym.is_zero(sp.diff(sp.sympify(a[1]), v) - 1) or v in sp.sympify(co).free_symbols:
+                        return None
+                    terms.append((sp.expand(co), a[0], sp.expand(sp.sympify(a[1]) - v + L.lo), sp.expand(ue - L.lo)))
+            elif isinstance(e.value, sp.Basic):
+                val = sp.expand(e.value)
+                own = [a for a in val.atoms(sp.Indexed) if base_of(a.base) == cname and sym.is_zero(a.indices[0] - e.key[0])]
+                if len(own) != 1 or not sym.is_zero(sp.diff(val, own[0]) - 1):
+                    return None
+                rest = sp.expand(val - own[0])
+                for a in rest.atoms(sp.Indexed):
+                    co = sp.expand(sp.diff(rest, a))
+                    if v in co.free_symbols or not sym.is_zero(sp.diff(a.indices[0], v) - 1):
+                        return None
+                    terms.append((co, str(a.base), sp.expand(a.indices[0] - v + L.lo), sp.expand(ue - L.lo)))
+                    rest = sp.expand(rest - co * a)
+                if not sym.is_zero(rest):
+                    return None
+            else:
+                return None
+            if not (sym.is_zero(L.lo + c_) ):
+                return None
+            full = sym.is_zero(sp.expand(ue - L.lo))
+            ev_ = sym.Effect(cname, ("*",), "+=", ("whole", (), "element loop", [(k_, t_, st_, cnt_) for k_, t_, st_, cnt_ in terms]), [], L.line)
+            ev_.seq = L.pos
+            return ev_
+
         def events(cname, lo=0, hi=None):
-            return [(e.seq, e) for e in I.effects if e.target == cname and e.seq >= lo and (hi is None or e.seq < hi)]
+            out = [(e.seq, e) for e in I.effects if e.target == cname and e.seq >= lo and (hi is None or e.seq < hi)]
+            for L in loops:
+                if L.pos >= lo and (hi is None or L.pos < hi) and any(e.target == cname for e in L.effects):
+                    le = loop_event(L, cname)
+                    if le is not None:
+                        out.append((le.seq, le))
+            return sorted(out, key=lambda t: t[0])
 
         def shape(evs):
             out = []
